@@ -632,6 +632,21 @@ def limits_pipeline(run, prop, classes, twin=False, aimd=True, vegas=True):
                 cfg.get("algo"), cfg.get("wrap"), rj["i"], rj["trace"], rj["class"], rj["why"]),
                 {"config": cfg, "sequence": tr[-40:], "reject": rj, "rerun": "VERIF_SEED=%d bin/check %s --tier %s" % (run.seed, prop, run.tier)},
                 {"algo": cfg.get("algo"), "class": rj["class"]})
+    if classes & {"loss", "demand"}:
+        # two samples racing (real time, bounded wait): the result is that of one of the two serial orders
+        out3, _ = run.go("^TestSampleRace$", env={"VERIF_N": 24 if th else 8}, timeout=600)
+        run.extra["sample_race"] = json.load(open(os.path.join(out3, "race.json")))
+        rp = os.path.join(out3, "race_trace.ndjson")
+        rejects, total = validate_sharded(run, "LimitTrace", "Limit_trace.cfg", rp)
+        run.events += total
+        run.traces += total
+        for rj in rejects[:25]:
+            if rj["class"] not in classes:
+                continue
+            lg = rj["logged"]
+            run.report("%s limit: samples %s and %s issued at once from estimate %s ended at %s; the serial orders give %s and %s" % (
+                lg.get("algo"), json.dumps(lg.get("a")), json.dumps(lg.get("b")), lg.get("before"), lg.get("est"), lg.get("ab"), lg.get("ba")),
+                {"reject": rj, "rerun": "VERIF_SEED=%d bin/check %s --tier %s" % (run.seed, prop, run.tier)}, {"algo": lg.get("algo"), "class": rj["class"] + "-concurrent"})
     run.extra["limit_traces"] = stats
     if stats["probes"] == 0 or stats["drops"] == 0 or stats["zero_rtt"] == 0 or stats["runs"] == 0 or (twin and stats["twins_strict"] == 0):
         raise Machinery("limit sequences are vacuous: %s" % stats)
@@ -668,6 +683,7 @@ def c15(run):
 
 def c16(run):
     limits_pipeline(run, "C16", {"notify"}, vegas=False)
+    windowed_part(run, "C16", estimate_only=True)
     # two samples racing (real time, bounded wait): the parked notification must not be overtaken
     out, _ = run.go("^TestNotifyAttack$", timeout=300)
     run.extra["notify_attack"] = json.load(open(os.path.join(out, "notify.json")))
@@ -702,7 +718,24 @@ def measure_part(run, prop):
                    {"sequence": tr, "reject": rj, "rerun": "VERIF_SEED=%d bin/check %s" % (run.seed, prop)}, {"kind": rj["kind"], "why": rj["why"]})
     with open(tp) as fh:
         run.sample({"measurement_sequence_excerpt": [json.loads(next(fh)) for _ in range(3)]})
-    return total
+    # an Update parked inside its operation while a second call (Add / Reset / Update) is made on the same instance
+    out, _ = run.go("^TestMeasureRace$", env={"VERIF_N": 16 if th else 4}, timeout=600)
+    run.extra["measure_race"] = json.load(open(os.path.join(out, "measure_race.json")))
+    rp = os.path.join(out, "measure_race_trace.ndjson")
+    rejects, tot2 = validate_sharded(run, "MeasureTrace", "Measure_trace.cfg", rp)
+    run.traces += tot2
+    run.events += tot2
+    seen = set()
+    for rj in rejects:
+        lg = rj["logged"]
+        key = (lg["kind"], lg["second"])
+        if key in seen:
+            continue
+        seen.add(key)
+        run.report("%s measurement: Update overlapping %s left %s; Update-then-%s gives %s, %s-then-Update gives %s" % (
+            lg["kind"], lg["second"], json.dumps(lg["got"]), lg["second"], json.dumps(lg["ab"]), lg["second"], json.dumps(lg["ba"])),
+            {"reject": rj, "rerun": "VERIF_SEED=%d bin/check %s" % (run.seed, prop)}, {"kind": lg["kind"], "why": "update-race-" + lg["second"]})
+    return total + tot2
 
 
 def c18(run):
@@ -712,8 +745,44 @@ def c18(run):
     run.assumptions += ["numerical accuracy of the floating-point primitives is not modelled (order relations on exact bit patterns only)"]
 
 
-def windowed_part(run, prop):
+def windowed_part(run, prop, estimate_only=False):
     th = run.tier == "thorough"
+    if not estimate_only:
+        windowed_graph(run, prop, th)
+    n = 2000 if th else 200
+    out, _ = run.go("^TestWindowedRandom$", env={"VERIF_N": n})
+    tp = os.path.join(out, "windowed_trace.ndjson")
+    rejects, total = validate_sharded(run, "WindowedTrace", "Windowed_trace.cfg", tp)
+    if estimate_only:
+        # C16: the wrapper reports exactly its delegate's estimate, also when the delegate moved without the wrapper
+        rejects = [rj for rj in rejects if "estimate" in rj["why"]]
+    run.traces += n
+    run.events += total
+    closes = moved = 0
+    with open(tp) as fh:
+        for line in fh:
+            if '"out":[{' in line:
+                closes += 1
+            if '"ext":true' in line:
+                moved += 1
+    if closes < 10 or moved < 10:
+        raise Machinery("windowed sequences are vacuous (%d window closings, %d external changes of the delegate)" % (closes, moved))
+    run.extra["windowed"] = {"sequences": n, "calls": total - n, "windows_closed": closes, "delegate_moved_without_the_wrapper": moved}
+    rows = None
+    seen = set()
+    for rj in rejects:
+        if rj["trace"] in seen:
+            continue
+        seen.add(rj["trace"])
+        if rows is None:
+            rows = vlib.read_ndjson(tp)
+        tr = [x for x in rows if x["trace"] == rj["trace"]]
+        n0 = sum(1 for x in rows[: rj["line"]] if x["trace"] == rj["trace"])
+        run.report("windowed limit: recorded sequence %d rejected (%s): expected %s, forwarded %s" % (rj["trace"], rj["why"], json.dumps(rj["expected"]), json.dumps(rj["logged"])),
+                   {"sequence": tr[:n0], "reject": rj, "rerun": "VERIF_SEED=%d bin/check %s" % (run.seed, prop)}, {"kind": "windowed", "why": rj["why"]})
+
+
+def windowed_graph(run, prop, th):
     # model -> code: every transition of the Windowed contract graph on a real WindowedLimit
     indir = os.path.join(run.scratch, "in_w")
     os.makedirs(indir, exist_ok=True)
@@ -730,32 +799,6 @@ def windowed_part(run, prop):
         for m in graph_report(run, prop, rep, "Windowed/" + os.path.basename(rep["file"])):
             run.report("windowed limit: after sample %s the delegate received %s, the contract fixes %s" % (json.dumps(m["op"]), m["got_res"], m["exp_res"]),
                        {"mismatch": m, "rerun": "bin/check %s" % prop}, {"kind": "windowed", "why": "graph replay"})
-    n = 2000 if th else 200
-    out, _ = run.go("^TestWindowedRandom$", env={"VERIF_N": n})
-    tp = os.path.join(out, "windowed_trace.ndjson")
-    rejects, total = validate_sharded(run, "WindowedTrace", "Windowed_trace.cfg", tp)
-    run.traces += n
-    run.events += total
-    closes = 0
-    with open(tp) as fh:
-        for line in fh:
-            if '"out":[{' in line:
-                closes += 1
-    if closes < 10:
-        raise Machinery("windowed sequences are vacuous (%d window closings)" % closes)
-    run.extra["windowed"] = {"sequences": n, "calls": total - n, "windows_closed": closes}
-    rows = None
-    seen = set()
-    for rj in rejects:
-        if rj["trace"] in seen:
-            continue
-        seen.add(rj["trace"])
-        if rows is None:
-            rows = vlib.read_ndjson(tp)
-        tr = [x for x in rows if x["trace"] == rj["trace"]]
-        n0 = sum(1 for x in rows[: rj["line"]] if x["trace"] == rj["trace"])
-        run.report("windowed limit: recorded sequence %d rejected (%s): expected %s, forwarded %s" % (rj["trace"], rj["why"], json.dumps(rj["expected"]), json.dumps(rj["logged"])),
-                   {"sequence": tr[:n0], "reject": rj, "rerun": "VERIF_SEED=%d bin/check %s" % (run.seed, prop)}, {"kind": "windowed", "why": rj["why"]})
 
 
 # ------------------------------------------------------------------------------ C20
@@ -850,6 +893,29 @@ def c14(run):
         seen.add(key)
         run.report("gRPC %s: recorded operation rejected by the contract: expected %s, logged %s" % (rj["op"]["kind"], json.dumps(rj["expected"]), json.dumps(rj["logged"])),
                    {"reject": rj, "rerun": "VERIF_SEED=%d bin/check C14" % run.seed}, {"kind": rj["op"]["kind"], "grant": rj["op"]["grant"]})
+    # full duplex: one RecvMsg and one SendMsg overlapping on the same wrapped stream, every order of entering and leaving
+    # the transport; each operation's own observation must be the one the contract fixes for it alone
+    out, _ = run.go("^TestGrpcDuplex$")
+    tp = os.path.join(out, "grpc_duplex_trace.ndjson")
+    rejects, total = validate_sharded(run, "GrpcTrace", "Grpc_trace.cfg", tp)
+    if total < 1000:
+        raise Machinery("full-duplex scenarios are vacuous: %d operations" % total)
+    run.events += total
+    run.traces += total // 2
+    run.extra["duplex_operations"] = total
+    rows = None
+    seen = set()
+    for rj in rejects:
+        if rows is None:
+            rows = {x["trace"]: x for x in vlib.read_ndjson(tp)}
+        row = rows.get(rj["trace"], {})
+        key = (rj["op"]["kind"], row.get("pattern"), rj["op"]["grant"])
+        if key in seen:
+            continue
+        seen.add(key)
+        run.report("gRPC %s overlapping a %s on the same stream (%s): expected %s, logged %s" % (
+            rj["op"]["kind"], "send" if rj["op"]["kind"] == "recv" else "recv", row.get("pattern"), json.dumps(rj["expected"]), json.dumps(rj["logged"])),
+            {"reject": rj, "scenario": row, "rerun": "bin/check C14"}, {"kind": rj["op"]["kind"] + "-duplex", "grant": rj["op"]["grant"], "pattern": row.get("pattern")})
     run.assumptions += ["recording limiter / listener doubles and fake handler, invoker and ServerStream (no network); interceptors are stateless, so sequences are independent operations",
                         "stream operations: RecvMsg consults the server-side stream classifier and SendMsg the client-side one, as the options are named"]
 
